@@ -3,7 +3,7 @@
    products are assembled from.  Part 2 (distributed, composed with the halo exchange of C03) is in
    Dist/ParSpmvProofs.v and stated below once available.
    dot_row dn x n = sum_{c<n} dn c * x_c. *)
-From Raptor Require Import Base.Sums Sparse.Defs Sparse.ConvertProofs Sparse.SpmvProofs Dist.Comm Dist.CommProofs Dist.ParMat Dist.ParSpmvProofs Dist.ParSpmvTProofs Sparse.Block Sparse.BlockProofs.
+From Raptor Require Import Base.Sums Sparse.Defs Sparse.ConvertProofs Sparse.SpmvProofs Dist.Comm Dist.CommProofs Dist.ParMat Dist.ParSpmvProofs Dist.ParSpmvTProofs Sparse.Block Sparse.BlockProofs Dist.Tap Dist.TapProofs Dist.TapSpmvProofs.
 
 Section C02.
 Variable F : Type.
@@ -126,6 +126,47 @@ Theorem C02_distributed_mult_T_is_global_transpose_product :
                          (seq 0 (length st))).
 Proof. intros. apply (par_mult_T_global F zero one add mul sub opp Fth w st xs bprev N q lc); assumption. Qed.
 
+(* The same products through the node-aware (TAP) packages: for every TAP package accepted by the id check of C04 the rows
+   of tap_mult / tap_mult_append / tap residual are the rows of the global operator applied to the global vector; A^T x
+   through the TAP reverse exchange is the global transpose product whenever the TAP package passes the symbolic reverse
+   check (and some standard package of the same column maps passes the reverse check of C03). *)
+Theorem C02_tap_products_are_global_products :
+  forall (tw : tap_world) (st : list (rank_state F)) (X : list F) (big N p li : nat) (bs : list (list F)),
+  let dflt := mkRS 0 0 0 0 (mkCsr 0 0 []) (mkCsr 0 0 []) [] in
+  let xs := map (fun rs : rank_state F => map (fun c => nth c X zero) (seq (rs_fc rs) (rs_nc rs))) st in
+  tap_fwd_ok tw (map (fun rs => seq (rs_fc rs) (rs_nc rs)) st) (map (fun rs => rs_colmap rs) st) big = true ->
+  length X <= big -> length (t_ranks tw) = length st -> p < length st ->
+  rs_wf F N (nth p st dflt) -> li < rs_nr (nth p st dflt) ->
+  xat (nth p (tap_par_mult F zero add mul tw st xs) []) li = dot (gden_row F zero add (nth p st dflt) li) X N /\
+  xat (nth p (tap_par_mult_append F zero add mul tw st xs bs) []) li
+    = add (xat (nth p bs []) li) (dot (gden_row F zero add (nth p st dflt) li) X N) /\
+  (rs_nr (nth p st dflt) <= length (nth p bs []) ->
+   xat (nth p (tap_par_residual F zero mul sub tw st xs bs) []) li
+    = sub (xat (nth p bs []) li) (dot (gden_row F zero add (nth p st dflt) li) X N)).
+Proof.
+  intros tw st X big N p li bs dflt xs Hok Hbig Hlen Hp Hwf Hli.
+  split; [apply (tap_par_mult_global F zero one add mul sub opp Fth tw st X big N p li); assumption|].
+  split; [apply (tap_par_mult_append_global F zero one add mul sub opp Fth tw st X big N p li); assumption|].
+  intros Hb. apply (tap_par_residual_global F zero one add mul sub opp Fth tw st X big N p li); assumption.
+Qed.
+
+Theorem C02_tap_mult_T_is_global_transpose_product :
+  forall (tw : tap_world) (w : world) (st : list (rank_state F)) (xs bprev : list (list F)) (N q lc : nat),
+  let dflt := mkRS 0 0 0 0 (mkCsr 0 0 []) (mkCsr 0 0 []) [] in
+  tap_rev_ok tw (map (fun rs => seq (rs_fc rs) (rs_nc rs)) st) (map (fun rs => rs_colmap rs) st) = true ->
+  rev_ok w (map (fun rs => seq (rs_fc rs) (rs_nc rs)) st) (map (fun rs => rs_colmap rs) st) = true ->
+  length (t_ranks tw) = length st -> length w = length st -> q < length st ->
+  (forall p, p < length st -> rs_wf F N (nth p st dflt)) ->
+  (forall p, p < length st -> length (nth p xs []) = rs_nr (nth p st dflt)) ->
+  length (nth q bprev []) = rs_nc (nth q st dflt) ->
+  lc < rs_nc (nth q st dflt) ->
+  (forall p, p < length st -> p <> q ->
+     ~ (rs_fc (nth p st dflt) <= rs_fc (nth q st dflt) + lc < rs_fc (nth p st dflt) + rs_nc (nth p st dflt))) ->
+  xat (nth q (tap_par_mult_T F zero add mul tw st xs bprev) []) lc
+  = sumf F zero add (map (fun p => colT F zero add mul (nth p st dflt) (nth p xs []) (rs_fc (nth q st dflt) + lc))
+                         (seq 0 (length st))).
+Proof. intros. apply (tap_par_mult_T_global F zero one add mul sub opp Fth tw w st xs bprev N q lc); assumption. Qed.
+
 (* Block formats (BCOO; BSR / BSC through their block triple listing): the block kernels are the scalar kernels of the
    row-major expansion E of the blocks, E is well formed, and E represents at (I*br + r, J*bc + c) the sum of the
    (r, c) entries of the stored blocks at block position (I, J).  [bspmv cases of the correspondence check] *)
@@ -155,3 +196,5 @@ Print Assumptions C02_distributed_mult_is_global_product.
 Print Assumptions C02_distributed_mult_append_and_residual.
 Print Assumptions C02_distributed_mult_T_is_global_transpose_product.
 Print Assumptions C02_block_kernels.
+Print Assumptions C02_tap_products_are_global_products.
+Print Assumptions C02_tap_mult_T_is_global_transpose_product.
